@@ -34,6 +34,7 @@ class _TableInterp:
         self.cleaned = []
         self.cmd = None
         self.rtype_known = True
+        self.default = None  # value an absent cell reads as (None: KeyError, plain dict)
 
     # -- expression forms
     def is_cell(self, x):
@@ -56,7 +57,9 @@ class _TableInterp:
             raise guards.Inconclusive(f"tracker dispatch reads `{x.id}`")
         if self.is_cell(x):
             if self.count == ABSENT:
-                raise _Raise("KeyError")
+                if self.default is None:
+                    raise _Raise("KeyError")
+                self.count = self.default  # defaultdict-like rows materialise the entry on read
             return self.count
         if isinstance(x, ast.UnaryOp) and isinstance(x.op, ast.Not):
             return not self.ev(x.operand)
@@ -114,7 +117,9 @@ class _TableInterp:
         if isinstance(s, ast.AugAssign):
             if self.is_cell(s.target):
                 if self.count == ABSENT:
-                    raise _Raise("KeyError")
+                    if self.default is None:
+                        raise _Raise("KeyError")
+                    self.count = self.default
                 c = self.ev(s.value)
                 if isinstance(s.op, ast.Add):
                     self.count += c
@@ -153,6 +158,36 @@ class _TableInterp:
         if isinstance(s, ast.Pass):
             return
         raise guards.Inconclusive(f"tracker dispatch statement {type(s).__name__}")
+
+
+def registry_row_default(e, f, regv):
+    """How the per-type rows of the registry are built: None for plain dicts
+    (reading an absent name raises KeyError), an int for defaultdict(int)-like
+    rows (absent names read as that value and are materialised)."""
+    defs = e.local_defs(f, regv)
+    if len(defs) != 1:
+        raise AnalysisError("tracker: the registry is not built by a single expression")
+    d = defs[0]
+    rows = []
+    if isinstance(d, ast.DictComp):
+        rows = [d.value]
+    elif isinstance(d, ast.Dict):
+        rows = list(d.values)
+    else:
+        raise guards.Inconclusive(f"tracker registry built by {norm(d)[:50]}")
+    out = set()
+    for r in rows:
+        if isinstance(r, ast.Dict) and not r.keys or (isinstance(r, ast.Call) and norm(r) == "dict()"):
+            out.add(None)
+        elif isinstance(r, ast.Call) and norm(r.func).split(".")[-1] == "defaultdict" and len(r.args) == 1 and norm(r.args[0]) == "int":
+            out.add(0)
+        elif isinstance(r, ast.Call) and norm(r.func).split(".")[-1] == "Counter" and not r.args:
+            out.add(0)
+        else:
+            raise guards.Inconclusive(f"tracker registry row type {norm(r)[:40]}")
+    if len(out) != 1:
+        raise guards.Inconclusive("tracker registry rows of mixed types")
+    return out.pop()
 
 
 def tracker_main(e):
@@ -222,8 +257,12 @@ def r_rt_table(e, R):
     body = [s for s in tr.body if not (isinstance(s, ast.Assign) and (s is parse or (isinstance(s.targets[0], ast.Name) and s.targets[0].id == split_var)))]
     rows = 0
 
+    default = registry_row_default(e, f, roles[3])
+    R.info["tracker_registry_rows"] = "plain dict (absent -> KeyError)" if default is None else f"defaulting rows (absent reads as {default})"
+
     def run(cmd, known, count):
         it = _TableInterp(e, f, roles)
+        it.default = default
         it.cmd, it.rtype_known, it.count = cmd, known, count
         try:
             it.run(body)
